@@ -577,6 +577,36 @@ func OpenFDsUnder(dir string) []string {
 	return out
 }
 
+// Reopen closes the index cleanly and opens it again (same directory, same
+// runtime configuration); the recorder stays installed.
+func (r *Run) Reopen() error {
+	r.readersMu.Lock()
+	var rids []int
+	for id := range r.readers {
+		rids = append(rids, id)
+	}
+	r.readersMu.Unlock()
+	for _, id := range rids {
+		r.CloseReader(id)
+	}
+	if err := r.Idx.Close(); err != nil {
+		return err
+	}
+	r.Rec.Emit("Reopen", nil)
+	cfg := map[string]interface{}{}
+	for k, v := range r.WL.KVConfig {
+		cfg[k] = v
+	}
+	idx, err := bleve.OpenUsing(r.Dir, cfg)
+	if err != nil {
+		return err
+	}
+	r.Idx = idx
+	adv, _ := idx.Advanced()
+	r.Sc, _ = adv.(*scorch.Scorch)
+	return nil
+}
+
 // Close closes the index and uninstalls the hook.
 func (r *Run) Close() error {
 	r.StopSampler()
